@@ -469,8 +469,11 @@ def run_case(job, acc):
         b1 = get(before, home + (d1,))
         a1 = get(after, home + (d1,))
         if not same(b1['store'], a1['store']):
+            # lists and arrays under the set divider are known finding
+            # K4; DICTIONARY values are separated by Store.divide
             V('C11.independence',
-              'shared-mutable-value:%s-divider' % (
+              ('shared-dict-value:%s-divider' if isinstance(got0, dict)
+               else 'shared-mutable-value:%s-divider') % (
                   'set' if case['divider'] in (None, 'set')
                   else case['label'].split(':')[0]),
               f'updating {d0}.v with {upd!r} changed {d1}: {b1["store"]} '
